@@ -288,9 +288,16 @@ def _c_block(o: Out, block, lv: int, uid, lang: str):
                 o.emit(lv + 1, "}")
             o.emit(lv, "}")
         elif kind == "closure":
-            o.emit(lv, "let clo_%s = |x: i32| {" % uid())
-            _c_block(o, bl[0], lv + 1, uid, lang)
-            o.emit(lv, "};")
+            inner = bl[0]
+            if len(inner) == 1 and inner[0] != "S" and inner[0][0] in ("if", "ifelse", "match", "loop", "while", "for") and (o.fresh() % 2 == 0):
+                # expression-bodied closure (what rustfmt makes of `|x| { match x {..} }`): still a closure level
+                o.emit(lv, "let clo_%s = %s|x: i32|" % (uid(), "move " if o.n % 3 == 0 else ""))
+                _c_block(o, inner, lv + 1, uid, lang)
+                o.emit(lv, ";")
+            else:
+                o.emit(lv, "let clo_%s = |x: i32| {" % uid())
+                _c_block(o, inner, lv + 1, uid, lang)
+                o.emit(lv, "};")
         elif kind == "asyncblock":
             o.emit(lv, "let fut_%s = async {" % uid())
             _c_block(o, bl[0], lv + 1, uid, lang)
